@@ -123,7 +123,10 @@ fn own_state(s: &Sys, c: &str) -> Value {
            "pending": r.pending_owner.map(|a| role_of(s, &a)).unwrap_or("none".into()), "exp": exp})
 }
 fn fresh() -> Sys {
-    let mut s = Sys::new(SysCfg::default());
+    fresh_with(false)
+}
+fn fresh_with(admin: bool) -> Sys {
+    let mut s = Sys::new(SysCfg { admin, ..Default::default() });
     // one pool so that feature toggles have a target
     let o = s.users[0].clone();
     s.exec_pm(&o, &pm::ExecuteMsg::CreatePool {
@@ -261,7 +264,7 @@ fn run_obj(edges: &[Value], t: &mut Tracer) {
 /// the one migration that does something: a deployment stored at v1.2.0 (pool records without switches) upgraded by the real
 /// `migrate`: every pool comes out with all switches on, except the pool the upgrade names (o.ausdy.uusdc: swaps and deposits off)
 fn run_upgrade_from_v120(t: &mut Tracer) {
-    let mut s = fresh();
+    let mut s = fresh_with(true);
     let o = s.users[0].clone();
     for id in ["ausdy.uusdc", "zz", "b"] {
         let _ = s.exec_pm(&o, &pm::ExecuteMsg::CreatePool {
@@ -297,7 +300,7 @@ fn run_migrations(t: &mut Tracer) {
     for c in ["pm", "fm", "em", "fc"] {
         for code in ["pm", "fm", "em", "fc"] {
             for by_admin in [true, false] {
-                let mut s = fresh();
+                let mut s = fresh_with(true);
                 let sender = if by_admin { s.users[0].clone() } else { s.users[3].clone() };
                 let before = s.digest();
                 let r = s.try_migrate(c, code, &sender);
